@@ -50,6 +50,7 @@ structure Extras where
   allowed : Option (List Scalar) := none     -- `allowed_values`
   formatter : Option (List Str) := none      -- parameter names of `fld.formatter`
   template : Option TemplateX := none        -- `path_template`, `keep_extension` of an outarg
+  out : Bool := false                        -- declared in `Outputs` (a `shell.outarg`)
   deriving DecidableEq, Repr
 
 structure FieldX where
@@ -285,6 +286,36 @@ def runDefX (F : FormatterFn) (xenv : Env) (cd : Str) (exe : List Str) (fxs : Li
       | .error e => .error e
       | .ok low =>
         liftE (commandArgsWith (envX inputs xenv) exe (bindAll (low.map (·.1)) ps (low.map (·.2))) appendArgs)
+
+/-! ### the canonical (class) form of a definition
+
+`shell.define` on a class collects the fields with `dir(klass)` (`extract_fields_from_class`), i.e. SORTED BY
+NAME, inputs first, then the fields of `Outputs`; with `inputs=[…]` / `inputs={…}` they come in the order
+written.  That order is the order in which unpositioned fields receive the free slots. -/
+
+/-- Python `a <= b` on `str` (code points, lexicographic) -/
+def strLE : Str → Str → Bool
+  | [], _ => true
+  | _ :: _, [] => false
+  | a :: as, b :: bs => if a.toNat < b.toNat then true else if a = b then strLE as bs else false
+
+def insertByName (p : FieldX × ValueX) : List (FieldX × ValueX) → List (FieldX × ValueX)
+  | [] => [p]
+  | q :: qs => if strLE p.1.base.name q.1.base.name then p :: q :: qs else q :: insertByName p qs
+
+def sortByName (l : List (FieldX × ValueX)) : List (FieldX × ValueX) := l.foldr insertByName []
+
+/-- `parsed_inputs` order of the class form -/
+def classOrder (pairs : List (FieldX × ValueX)) : List (FieldX × ValueX) :=
+  sortByName (pairs.filter (fun p => !p.1.x.out)) ++ sortByName (pairs.filter (fun p => p.1.x.out))
+
+/-- the argument vector of a definition written as a class (`classForm`) or with `inputs=` / `outputs=` -/
+def runDefForm (classForm : Bool) (F : FormatterFn) (xenv : Env) (cd : Str) (exe : List Str)
+    (fxs : List FieldX) (vs : List ValueX) (appendArgs : List Str) : Except ErrX (List Str) :=
+  if classForm then
+    let ps := classOrder (zipX fxs vs)
+    runDefX F xenv cd exe (ps.map (·.1)) (ps.map (·.2)) appendArgs
+  else runDefX F xenv cd exe fxs vs appendArgs
 
 /-! ### a small language of formatter bodies for the driver (the theorems quantify over every `FormatterFn`) -/
 
